@@ -60,9 +60,9 @@ const (
 	_doubleTwoByteTag   = byte(0x5e)
 	_doubleFourByteTag  = byte(0x5f)
 	_doubleOneByteMin   = -0x80   // -128
-	_doubleOneByteMax   = -0x7f   // 127
+	_doubleOneByteMax   = 0x7f    // 127
 	_doubleTwoByteMin   = -0x8000 // -32768.0
-	_doubleTwoByteMax   = -0x7fff // 32767.0
+	_doubleTwoByteMax   = 0x7fff  // 32767.0
 )
 
 func doubleTag(tag byte) bool {
@@ -93,7 +93,7 @@ func encodeDouble(value float64) ([]byte, error) {
 		if iv >= _doubleTwoByteMin && iv <= _doubleTwoByteMax {
 			return []byte{_doubleTwoByteTag, byte(iv >> 8), byte(iv)}, nil
 		}
-		return nil, newCodecError("encodeDouble", "unsupported double range: %v", iv)
+		// larger integral values use the float / double forms below
 	}
 
 	f32 := float32(value)
